@@ -47,6 +47,15 @@ func main() {
 			return
 		}
 	}
+	// a Publish call without messages before the first subscription: the topic has a backlog entry, and it is empty
+	for i := 0; i < 4; i++ {
+		sc := gc.Scenario{Buf: i % 2, Persistent: true, Blocking: i >= 2, Seed: rng.Next(), Big: true, EmptyFirst: true,
+			Subs: []gc.SubSpec{{Topic: 0, Phase: 0, CancelAtRecv: -1, NestedTopic: -1}, {Topic: 0, Phase: 2, CancelAtRecv: -1, NestedTopic: -1, NackFirst: 1, NackEvery: 2}},
+			Pubs: []gc.PubSpec{{Topic: 0, Calls: 3, Batch: 2}}}
+		if !emit(sc) {
+			return
+		}
+	}
 	nfresh := 120
 	if a.Thorough() {
 		nfresh = 600
